@@ -36,6 +36,7 @@ type Resp struct {
 	method   string
 	path     string
 	route    string
+	refused  bool      // nobody listens (any more): there is no answer
 	lastBody time.Time // when the last piece of the request body was handed to the server
 	bodyGap  time.Duration // longest pause between two pieces of the body
 }
@@ -68,6 +69,8 @@ type World struct {
 	lastGCBusy       bool
 	sessions         map[int]*MSess
 	props            []string // properties this run's generic oracles speak for in addition to their own
+	served           bool     // requests go through Server.Run's listener, the end is Server.Shutdown (liveness profiles)
+	serveDone        *simrt.WaitGroup
 	switchTo         string   // store kind the next restart opens ("memdir")
 	switched         bool
 	lastLoc          string   // Location of the latest 202 for an upload: the session adversarial requests are aimed at
@@ -87,6 +90,22 @@ func (w *World) open() {
 	w.openedAt = time.Now()
 	w.srv = New(w.k.config(w.root))
 	w.closed = false
+	if w.served {
+		// the server listens (Server.Run on the simulated listener) and is ended with Server.Shutdown; requests are handed
+		// to the listener instead of the handler
+		srv := w.srv
+		w.serveDone = &simrt.WaitGroup{}
+		w.serveDone.Add(1)
+		done := w.serveDone
+		w.x.sim.GoNamed("serve", "go", func() {
+			defer done.Done()
+			_ = srv.Run(context.Background())
+		})
+		for i := 0; i < 10000 && !simrt.Listening(""); i++ {
+			simrt.Sleep(time.Microsecond)
+		}
+		w.x.out.probe("served-by-run")
+	}
 }
 
 func (w *World) close() error {
@@ -94,6 +113,12 @@ func (w *World) close() error {
 		return nil
 	}
 	w.closed = true
+	if w.served {
+		err := w.srv.Shutdown(context.Background())
+		w.serveDone.Wait()
+		w.x.out.probe("shutdown-returned")
+		return err
+	}
 	return w.srv.Close()
 }
 
@@ -280,6 +305,16 @@ func (w *World) do(rs reqSpec) *Resp {
 		}()
 		simrt.EnterServer()
 		defer simrt.LeaveServer()
+		if w.served {
+			if t != nil && rs.addr == "" {
+				// one connection per client task
+				req.RemoteAddr = fmt.Sprintf("192.0.2.1:%d", 4711+len(t.Name)*131+int(t.Name[len(t.Name)-1]))
+			}
+			if err := simrt.Deliver("", rec, req); err != nil {
+				resp.refused = true
+			}
+			return
+		}
 		w.srv.ServeHTTP(rec, req)
 	}()
 	resp.fsTo = w.x.sim.FS.N
@@ -295,6 +330,10 @@ func (w *World) do(rs reqSpec) *Resp {
 	}
 	if traceOn {
 		fmt.Printf("TRACE %s t=%s %s %s?%s -> %d %s fs[%d..%d] %s\n", w.name, time.Since(w.x.start), rs.method, rs.path, rs.query, resp.Code, trunc(resp.Body, 100), resp.fsFrom, resp.fsTo, resp.H.Get("Location"))
+	}
+	if resp.refused {
+		resp.Code = 0
+		return resp
 	}
 	w.generic(rs, resp)
 	return resp
